@@ -502,6 +502,11 @@ pub struct FsmCfg {
     pub rx: usize,
     /// reduced alphabet (fewer sequence/ack choices) to reach deeper
     pub reduced: bool,
+    /// window the peer's segments advertise
+    pub peer_win: u16,
+    /// octets written by the `Send1` API event (more than `peer_win`: the FIN of a later
+    /// close() cannot follow the data at once, so FIN-WAIT-1 / LAST-ACK exist with the FIN unsent)
+    pub send_len: usize,
 }
 
 #[derive(Clone, Debug, PartialEq)]
@@ -832,7 +837,7 @@ impl Harness for Fsm {
         match ev {
             FsmEv::Seg { flags, seq, ack, len } => {
                 let payload = vec![0x5a; *len];
-                let seg = build_seg(*seq, *ack, *flags, 500, if flags & wc::TCP_SYN != 0 { &[2, 4, 5, 180] } else { &[] }, &payload);
+                let seg = build_seg(*seq, *ack, *flags, self.cfg.peer_win, if flags & wc::TCP_SYN != 0 { &[2, 4, 5, 180] } else { &[] }, &payload);
                 let pre = self.w.state();
                 if pre == State::Listen {
                     self.obs.was_listening = true;
@@ -868,7 +873,7 @@ impl Harness for Fsm {
                         self.w.sock().abort();
                         true
                     }
-                    Api::Send1 => self.w.sock().send_slice(&[0x42]).is_ok(),
+                    Api::Send1 => self.w.sock().send_slice(&[0x42; 8][..self.cfg.send_len]).is_ok(),
                     Api::Recv => {
                         let mut b = [0u8; 16];
                         self.w.sock().recv_slice(&mut b).is_ok()
@@ -907,12 +912,14 @@ impl Harness for Fsm {
 pub fn fsm_configs(tier: Tier) -> Vec<(FsmCfg, usize)> {
     match tier {
         Tier::Quick => vec![
-            (FsmCfg { name: "full", peer_isn: 0xffff_fff0, rx: 8, reduced: false }, 5),
-            (FsmCfg { name: "reduced", peer_isn: 5000, rx: 8, reduced: true }, 7),
+            (FsmCfg { name: "full", peer_isn: 0xffff_fff0, rx: 8, reduced: false, peer_win: 500, send_len: 1 }, 5),
+            (FsmCfg { name: "reduced", peer_isn: 5000, rx: 8, reduced: true, peer_win: 500, send_len: 1 }, 7),
+            (FsmCfg { name: "reduced-win1-send3", peer_isn: 5000, rx: 8, reduced: true, peer_win: 1, send_len: 3 }, 6),
         ],
         Tier::Thorough => vec![
-            (FsmCfg { name: "full", peer_isn: 0xffff_fff0, rx: 8, reduced: false }, 5),
-            (FsmCfg { name: "reduced", peer_isn: 5000, rx: 8, reduced: true }, 8),
+            (FsmCfg { name: "full", peer_isn: 0xffff_fff0, rx: 8, reduced: false, peer_win: 500, send_len: 1 }, 5),
+            (FsmCfg { name: "reduced", peer_isn: 5000, rx: 8, reduced: true, peer_win: 500, send_len: 1 }, 8),
+            (FsmCfg { name: "reduced-win1-send3", peer_isn: 5000, rx: 8, reduced: true, peer_win: 1, send_len: 3 }, 8),
         ],
     }
 }
